@@ -1,4 +1,4 @@
-import RsMatterVerif.Lemmas.Btp
+import RsMatterVerif.Lemmas.BtpLink
 /-!
 # C18 — BTP delivers each message intact, once and in order, or fails cleanly
 
@@ -6,6 +6,8 @@ Property theorems over `Model/Btp.lean` / `Model/BtpLink.lean`.
 -/
 namespace C18
 open Btp
+
+/-! ## Hostile peer: `process_rx` is total -/
 
 /-- **Hostile peer, clause "can not crash the node"**: for every session state satisfying the
 invariant, every GATT MTU, every byte string and every instant, `Session::process_rx` returns
@@ -29,5 +31,62 @@ with MTU 23 and window 5 processed by a fresh responder). -/
 example : ∃ s, (Session.fresh false false).processRx none [0x65, 0x6c, 4, 0, 0, 0, 23, 0, 5] 0 = .ok s ∧
     s.established = true ∧ s.windowSize = 5 ∧ s.mtu = 20 := by
   exact ⟨_, rfl, rfl, rfl, rfl⟩
+
+/-! ## One end under every operation of the outside world -/
+
+/-- run a list of operations on a monitored end; a refused operation leaves the state unchanged -/
+def run (m : Mon) : List EOp → Mon
+  | [] => m
+  | op :: ops =>
+    match m.step op with
+    | .ok (m', _) => run m' ops
+    | .error _ => run m ops
+
+/-- the bytes on the wire are bytes -/
+def WfOps (ops : List EOp) : Prop := ∀ d now, EOp.rx d now ∈ ops → Bytes d
+
+def freshMon (initiator relaxed : Bool) (gatt : Option Nat) : Mon :=
+  { e := { s := Session.fresh initiator relaxed, gattMtu := gatt } }
+
+theorem minv_fresh (i r : Bool) (g : Option Nat) : MInv (freshMon i r g) := by
+  refine ⟨⟨sinv_fresh i r, by simp [freshMon], by simp [freshMon]⟩, ?_, ?_⟩
+  · simpa [freshMon, Session.fresh] using ringRep_init
+  · intro i b c h; simp [freshMon] at h
+
+/-- **Invariant**: preserved by every operation — application, GATT glue, and a peer that sends
+arbitrary bytes — in every order, for every negotiated MTU and window, including sequence wrap. -/
+theorem end_inv (ops : List EOp) : ∀ (m : Mon), MInv m → WfOps ops → MInv (run m ops) := by
+  induction ops with
+  | nil => intro m hm _; exact hm
+  | cons op ops ih =>
+    intro m hm hw
+    have hw' : WfOps ops := fun d now h => hw d now (List.mem_cons_of_mem _ h)
+    have c := mon_step m hm op (fun d now h => hw d now (by rw [h]; exact List.mem_cons_self))
+    simp only [run]
+    cases h : m.step op with
+    | ok r => rw [h] at c; exact ih r.1 c hw'
+    | error f => exact ih m hm hw'
+
+/-- **No operation ever panics**, whatever happened before: after any history of operations from a
+fresh end, the next operation yields a state satisfying the invariant or a clean error. -/
+theorem end_never_panics (i r : Bool) (g : Option Nat) (ops : List EOp) (hw : WfOps ops) (op : EOp)
+    (hop : ∀ d now, op = .rx d now → Bytes d) :
+    (∃ m' out, (run (freshMon i r g) ops).step op = .ok (m', out) ∧ MInv m') ∨
+    (∃ e, (run (freshMon i r g) ops).step op = .error e ∧ e.isPanic = false) := by
+  have hm := end_inv ops _ (minv_fresh i r g) hw
+  have c := mon_step _ hm op hop
+  cases h : (run (freshMon i r g) ops).step op with
+  | ok r => rw [h] at c; exact .inl ⟨r.1, r.2, rfl, c⟩
+  | error e => rw [h] at c; exact .inr ⟨e, rfl, c⟩
+
+/-- **Nothing corrupted, duplicated or reordered, whoever the peer is**: after any history of
+operations, the `i`-th message handed to the application is the `i`-th message of the
+specification-side reassembly (`Spec.Reasm`) of the segments that were accepted in the current
+session, cut to the caller's buffer. -/
+theorem delivered_is_reassembly (i r : Bool) (g : Option Nat) (ops : List EOp) (hw : WfOps ops)
+    (k : Nat) (b : List Nat) (c : Nat)
+    (hk : (run (freshMon i r g) ops).fetched[k]? = some (b, c)) :
+    ∃ full, (run (freshMon i r g) ops).rs.done[k]? = some full ∧ b = full.take c :=
+  (end_inv ops _ (minv_fresh i r g) hw).dlv k b c hk
 
 end C18
